@@ -9,9 +9,10 @@ PROPS = {
     # changes that need SCALE (thousands of retrieved rules) or a particular request sequence to manifest
     "C02": {"families": [fam("scale", 1, 1, seeds=2)]},
     "C13": {"families": [fam("scale", 1, 1, seeds=2), fam("c13.srcmemo", 150, 2000), fam("c13.tail", 100, 1500)]},
-    "C11": {"families": [fam("c13.tail", 100, 1500)]},
+    # scanning and retrieval INTERLEAVED on one storage, String vs File backing (defect D17 of the pinned tree)
+    "C11": {"families": [fam("c13.tail", 100, 1500), fam("c11.interleave", 30, 300)], "defects": ["D17"]},
     "C19": {"families": [fam("scale", 1, 1, seeds=2)]},
-    "C04": {"families": [fam("c04.collide", 40, 400)]},
+    "C04": {"families": [fam("c04.collide", 40, 400)], "defects": ["D13"]},
     "C03": {"families": [fam("c04.collide", 40, 400)]},
     "C05": {"families": [fam("scale.hist", 1, 1, seeds=2)]},
     "C01": {"families": [fam("scale.hist", 1, 1, seeds=2)]},
